@@ -139,6 +139,50 @@ func TestVerifC11(t *testing.T) {
 	for _, l := range vfutil.Corpus("C11") {
 		one(vfutil.UnHex(l), "corpus")
 	}
+	// FORCED degenerate-but-legal keys (dimension audit): the empty key (slot 0), nil, "{}", "{", "}", one byte; a tagged and
+	// an untagged key in each of the slots 0, 1, 16382, 16383 (found by search with the bitwise oracle), a tag of one byte
+	one(nil, "forced")
+	one([]byte{}, "forced")
+	for _, k := range []string{"{}", "{", "}", "}{", "{}{}", "a", "\x00", "{a}", "{\x00}", "{{}}", "{}}", "{{}"} {
+		one([]byte(k), "forced")
+	}
+	for _, want := range []uint16{0, 1, 16382, 16383} {
+		tagged, plain := false, false
+		for a := 0; a < 256 && !(tagged && plain); a++ {
+			for b := 0; b < 256 && !(tagged && plain); b++ {
+				if a == '{' || a == '}' || b == '{' || b == '}' {
+					continue
+				}
+				if vfCrc16([]byte{byte(a), byte(b)})%16384 == want {
+					if !tagged {
+						one([]byte{'x', '{', byte(a), byte(b), '}', 'y'}, "forced")
+						tagged = true
+					}
+					if !plain {
+						one([]byte{byte(a), byte(b)}, "forced")
+						plain = true
+					}
+				}
+			}
+		}
+		s.Count(fmt.Sprintf("forced_slot_%d", want))
+	}
+	// GetSlot on argument types it does not know: an error, never a slot (and never a panic)
+	for _, arg := range []interface{}{nil, 1.5, struct{}{}, []string{"k"}, true} {
+		func() {
+			defer func() {
+				if p := recover(); p != nil {
+					s.Violate("GetSlot-type", fmt.Sprintf("GetSlot(%T) panics: %v", arg, p), map[string]interface{}{"arg_type": fmt.Sprintf("%T", arg)})
+				}
+			}()
+			s.Count("forced_getslot_othertype")
+			if _, err := cluster.GetSlot(arg); err == nil {
+				if _, isF := arg.(float64); !isF { // float64 is formatted (declared boundary of the check)
+					s.Violate("GetSlot-type", fmt.Sprintf("GetSlot(%T) returns a slot without an error", arg), map[string]interface{}{"arg_type": fmt.Sprintf("%T", arg)})
+				}
+			}
+		}()
+	}
 	// long keys: tag at the start / in the middle / at the end / absent / unclosed
 	for _, n := range []int{4095, 4096, 4097, 65535, 65537, 1 << 20} {
 		for v := 0; v < 5; v++ {
